@@ -6,6 +6,7 @@
    License, v. 2.0. If a copy of the MPL was not distributed with this
    file, You can obtain one at http://mozilla.org/MPL/2.0/. */
 
+#include <limits.h>
 #include <stdlib.h>
 #include <string.h>
 #include <stdio.h>
@@ -16,11 +17,22 @@
 
 #include "jwt-private.h"
 
+/* jwt_encode() keeps the lengths of the two encoded documents, and their sum,
+ * in an int. */
+#define JWT_ENCODE_MAX_JS	(INT_MAX / 4)
+
 static int write_js(const json_t *js, char **buf)
 {
 	*buf = json_dumps(js, JSON_SORT_KEYS | JSON_COMPACT);
+	if (*buf == NULL)
+		return 1;
 
-	return *buf == NULL ? 1 : 0;
+	if (strlen(*buf) > JWT_ENCODE_MAX_JS) {
+		jwt_freemem(*buf);
+		return 1;
+	}
+
+	return 0;
 }
 
 int jwt_head_setup(jwt_t *jwt)
